@@ -154,8 +154,10 @@ func H_c16_listener_steps() {
 // edit that names another listener changes nothing.
 func H_c16_listener_edit() {
 	t := verifNewTeamserver(true)
-	t.Profile.Config.Demon = &profile.Demon{TrustXForwardedFor: nondet_bool("behind-redirector")}
+	trust := nondet_bool("behind-redirector")
+	t.Profile.Config.Demon = &profile.Demon{TrustXForwardedFor: trust}
 	run := &handlers.HTTP{}
+	run.Config.BehindRedir = trust
 	run.Config.Name = "w"
 	run.Config.UserAgent = "UA1"
 	run.Config.Headers = []string{"X-A: 1"}
@@ -163,6 +165,7 @@ func H_c16_listener_edit() {
 	other := &handlers.HTTP{}
 	other.Config.Name = "v"
 	other.Config.Uris = []string{"/keep"}
+	other.Config.BehindRedir = trust
 	t.Listeners = []*Listener{{Name: "w", Type: handlers.LISTENER_HTTP, Config: run}, {Name: "v", Type: handlers.LISTENER_HTTP, Config: other}}
 	edit := handlers.HTTPConfig{Name: []string{"w", "v", "zz"}[nondet_choice("edited-name", 3)]}
 	edit.UserAgent = []string{"", "UA2"}[nondet_choice("new-user-agent", 2)]
@@ -203,6 +206,8 @@ func H_c16_listener_edit() {
 	if edit.Name != "v" {
 		verif_assert(same(other.Config.Uris, []string{"/keep"}), "an edit of another listener leaves this one alone")
 	}
+	verif_assert(run.Config.BehindRedir == trust, "after an edit the listener trusts X-Forwarded-For exactly as the profile says")
+	verif_assert(other.Config.BehindRedir == trust, "after an edit the other listener trusts X-Forwarded-For exactly as the profile says")
 	verif_assert(len(t.Listeners) == 2, "an edit neither adds nor removes listeners")
 	verif_witness()
 }
